@@ -102,9 +102,14 @@ def coq_deps(vfile):
             txt = open(os.path.join(COQ, v)).read()
         except OSError:
             continue
-        for m in re.finditer(r"(?:From\s+DT\s+)?Require\s+(?:Import|Export)?\s*([^.]*(?:\.[A-Za-z_][\w]*)*)\s*\.\s", txt):
-            for mod in m.group(1).split():
-                mod = mod.strip()
+        txt = re.sub(r"\(\*.*?\*\)", "", txt, flags=re.S)
+        for line in txt.splitlines():
+            m = re.match(r"\s*(?:From\s+\S+\s+)?Require\s+(?:Import\s+|Export\s+)?(.*)$", line)
+            if not m:
+                continue
+            body = m.group(1).strip().rstrip(".")
+            for mod in body.split():
+                mod = mod.strip().rstrip(".")
                 if mod.startswith("DT."):
                     mod = mod[3:]
                 cand = mod.replace(".", "/") + ".v"
